@@ -77,6 +77,8 @@ var (
 	vpMu   sync.Mutex
 	vpSeq  int
 	vpWait = map[int]chan struct{}{}
+	// set by the harness line "EOF-RELEASES" / once the harness end of the socket is gone after that
+	vpEOFReleases, vpGone bool
 )
 
 // container init side: if stderr is a socket, every point is announced as "VP <seq> <id> <arg>\n" on it and the
@@ -95,7 +97,24 @@ func vpInit() {
 		for {
 			line, err := rd.ReadString('\n')
 			if err != nil {
+				// the harness is gone. By default parked points stay parked (the init is "held at that point" for good); a
+				// harness that asked for it with the line "EOF-RELEASES" gets every point released and all later ones passed
+				vpMu.Lock()
+				if vpEOFReleases {
+					vpGone = true
+					for n, ch := range vpWait {
+						delete(vpWait, n)
+						close(ch)
+					}
+				}
+				vpMu.Unlock()
 				return
+			}
+			if strings.TrimSpace(line) == "EOF-RELEASES" {
+				vpMu.Lock()
+				vpEOFReleases = true
+				vpMu.Unlock()
+				continue
 			}
 			n, err := strconv.Atoi(strings.TrimSpace(line))
 			if err != nil {
@@ -132,6 +151,10 @@ func verifPoint(id, arg int) {
 	}
 	ch := make(chan struct{})
 	vpMu.Lock()
+	if vpGone {
+		vpMu.Unlock()
+		return
+	}
 	vpSeq++
 	seq := vpSeq
 	vpWait[seq] = ch
